@@ -219,7 +219,34 @@ func hostileStream(ch *Choices) ([]byte, string) {
 func hostileStreamN(ch *Choices) ([]byte, string, int) {
 	var b bytes.Buffer
 	f := &foreignBuilder{ch: ch, Features: map[string]int{}}
-	switch ch.Intn(17, "hostile.kind") {
+	switch ch.Intn(18, "hostile.kind") {
+	case 17:
+		// an evolved version of a class whose Go type embeds a pointer to itself (registered by hand, see
+		// c14ExtraTypes): known and unknown field names, a few instances
+		cls := []string{"SelfEmb", "CycA"}[ch.Intn(2, "embcyc.cls")]
+		known := map[string]string{"SelfEmb": "val", "CycA": "a"}[cls]
+		extra := ch.Range(1, 3, "embcyc.extra")
+		b.WriteByte(0x57)
+		b.WriteByte('C')
+		b.WriteByte(byte(len(cls)))
+		b.WriteString(cls)
+		b.WriteByte(byte(0x90 + 1 + extra))
+		b.WriteByte(byte(len(known)))
+		b.WriteString(known)
+		for i := 0; i < extra; i++ {
+			name := fmt.Sprintf("f%d", ch.Intn(1000, "embcyc.name"))
+			b.WriteByte(byte(len(name)))
+			b.WriteString(name)
+		}
+		for k, n := 0, ch.Range(1, 4, "embcyc.inst"); k < n; k++ {
+			b.WriteByte(0x60)
+			b.WriteByte(byte(0x90 + k))
+			for i := 0; i < extra; i++ {
+				b.WriteByte(0x91)
+			}
+		}
+		b.WriteByte('Z')
+		return b.Bytes(), fmt.Sprintf("evolved class %s (Go type with an embedding cycle), %d unknown field names", cls, extra), 1
 	case 16:
 		// a typed list whose type NAME is long and structured: hundreds to tens of thousands of '[' in front
 		// of an element name (a multi-dimensional array type nobody registered)
